@@ -700,7 +700,7 @@ class Run:
 
     # -- the PrimMachine design model and its cases (direction A for C03/C13/C18) -----------------
     def prim_model_replay(self):
-        r = self.model("MCPrims.tla", "MCPrims.cfg", note="every writer call of the finite family MCPrims!AllCalls followed by the matching reader: ExactWidth, ReadBack, PairRelation, WrapRefused")
+        r = self.model("MCPrims.tla", "MCPrims.cfg" if self.tier == "quick" else "MCPrims_thorough.cfg", note="every writer call of the finite family MCPrims!AllCalls followed by the matching reader: ExactWidth, ReadBack, PairRelation, WrapRefused")
         cases = [parse_tla_string(x) for x in tlc_prints(r["out"], "PRIMCASE")]
         if not cases:
             raise Broken("no primitive case exported")
